@@ -35,8 +35,105 @@ def coq_bytes(b):
     return core.coq_list(list(b), lambda x: "%d" % x)
 
 
+def unusual_faults(ctx):
+    """(a) the failure is an exception object that is FALSY (an empty collection of problems) raised from the body of a staged
+    write, from a dict being serialised, from __reduce__; (b) the final rename is refused (PermissionError / EACCES) and every
+    other way of renaming fails too.  After the failure the target holds its previous state or the new value - never nothing,
+    never a part - its modified time moved only if the new value is in place, and the raised exception is the original one."""
+    import errno
+    import os
+    import pathlib
+    import shutil
+    import tempfile
+    import uberjob.stores as st
+    m = cc.fs_mod()
+
+    class Problems(Exception):
+        def __bool__(self):
+            return False
+
+        def __len__(self):
+            return 0
+
+    class FalsyItems(dict):
+        def items(self):
+            yield ("a", 1)
+            raise exc_box[0]
+
+    class FalsyReduce:
+        def __reduce__(self):
+            raise exc_box[0]
+    exc_box = [None]
+    d = tempfile.mkdtemp(prefix="ujc11u_")
+    try:
+        for pk in ("str", "pathlib"):
+            for previous in (False, True):
+                for kind in ("staged_write body", "staged_write_path body", "json items", "pickle reduce", "rename refused"):
+                    name = os.path.join(d, "t_%s_%s_%s" % (pk, previous, kind.replace(" ", "_")))
+                    path = pathlib.Path(name) if pk == "pathlib" else name
+                    if previous:
+                        with open(name, "wb") as f:
+                            f.write(cc.OLD)
+                        os.utime(name, ns=(cc.OLD_NS, cc.OLD_NS))
+                    exc = Problems("no rows")
+                    exc_box[0] = exc
+                    raised = None
+                    saved_os = m.os
+                    try:
+                        if kind == "staged_write body":
+                            with m.staged_write(path, "wb") as f:
+                                f.write(b"NEW-PARTIAL")
+                                raise exc
+                        elif kind == "staged_write_path body":
+                            with m.staged_write_path(path) as sp:
+                                with open(sp, "wb") as f:
+                                    f.write(b"NEW-PARTIAL")
+                                raise exc
+                        elif kind == "json items":
+                            st.JsonFileStore(path).write({"k": FalsyItems(a=1)})
+                        elif kind == "pickle reduce":
+                            st.PickleFileStore(path).write([b"x" * 70000, FalsyReduce()])
+                        else:
+                            class RefusingOs:
+                                def __getattr__(self, k):
+                                    return getattr(os, k)
+
+                                @staticmethod
+                                def replace(a, b):
+                                    raise PermissionError(errno.EACCES, "rename refused", str(b))
+
+                                @staticmethod
+                                def rename(a, b):
+                                    raise OSError(errno.EIO, "I/O error", str(b))
+                                link = renames = rename
+                            m.os = RefusingOs()
+                            exc = None
+                            st.BinaryFileStore(path).write(b"NEW-VALUE")
+                    except BaseException as e:      # noqa
+                        raised = e
+                    finally:
+                        m.os = saved_os
+                    listing = sorted(x for x in os.listdir(d) if x.startswith(os.path.basename(name)))
+                    content = open(name, "rb").read() if os.path.exists(name) else None
+                    mtime = os.stat(name).st_mtime_ns if os.path.exists(name) else None
+                    rep = {"path_kind": pk, "previous_value": previous, "failure": kind, "listing": listing, "raised": repr(raised)}
+                    ctx.case(("c11-unusual", pk, previous, kind))
+                    want_content = cc.OLD if previous else None
+                    if raised is None or (exc is not None and raised is not exc):
+                        ctx.fail("unusual:exception", "%s: the write %s" % (kind, "returned normally" if raised is None else "raised %r instead of the original exception" % (raised,)), rep)
+                    if content != want_content or (previous and mtime != cc.OLD_NS):
+                        ctx.fail("unusual:target", "%s (%s, %s): after the failed write the target holds %r (mtime moved: %s); before it held %r"
+                                 % (kind, pk, "previous value present" if previous else "no previous value", None if content is None else content[:20],
+                                    previous and mtime != cc.OLD_NS, want_content), rep)
+                    if os.path.basename(name) + ".STAGING" in listing and kind != "rename refused":
+                        ctx.fail("unusual:staging-left", "%s: the staging file was left behind after the exception" % kind, rep)
+    finally:
+        shutil.rmtree(d, ignore_errors=True)
+
+
 def run(ctx):
     core.use_repo()
+    unusual_faults(ctx)
     thorough = not ctx.quick
     writers = cc.WRITERS
     cases = []          # (meta, case)
